@@ -23,6 +23,19 @@ NA = {
 }
 
 CHECKS = {
+    "C07": dict(
+        category="exploration", design_ref="DESIGN.md section 4, C07",
+        text="One explicit in-process history of CLI-style calls (every item twice at seeded positions, interleaved "
+             "library diff/print calls with their own colour printers, quiet flips, clock profiles, optional soak of "
+             "hundreds of colour calls) is executed by real child interpreters under different PYTHONHASHSEED, ASLR "
+             "off/on and heap shifts; exit status, exception class and stdout bytes of every execution of an item must "
+             "agree across children and positions. Purity: tree fingerprints before/after comparisons that are "
+             "optionally cancelled by KeyboardInterrupt at the n-th clock read / stream write / engine step, and the "
+             "next diff must render identically.",
+        note="Trusted: stderr excluded; identical failures everywhere are not C07's subject; the harness never resets "
+             "graphtage-mutated state inside a history; third-party native code is a black box.",
+        technique="deterministic simulation: controlled hash seed / address layout / in-process call history in "
+                  "child interpreters, cancellation injection, byte-equality oracle"),
     "C04": dict(
         category="exploration", design_ref="DESIGN.md section 4, C04",
         text="Every tighten_bounds() of every Bounded class is wrapped from outside; the engine is driven by the seeded "
